@@ -295,9 +295,13 @@ def _hierarchy(ctx, P):
 
     ev = Evaluator(P, models={"metadata_parsers:parse_sgrid": m_s, "metadata_parsers:parse_comodo": m_c}, method_models=ds_models())
     for name, attrs, want in (("Conventions: 'CF-1.6, SGRID-0.3'", {"Conventions": "CF-1.6, SGRID-0.3"}, "SGRID-RESULT"), ("conventions: 'sgrid'", {"conventions": "sgrid"}, "SGRID-RESULT"),
-                              ("Conventions: 'CF-1.6'", {"Conventions": "CF-1.6"}, "COMODO-RESULT"), ("no Conventions attribute", {}, "COMODO-RESULT")):
+                              ("Conventions: 'CF-1.6'", {"Conventions": "CF-1.6"}, "COMODO-RESULT"), ("no Conventions attribute", {}, "COMODO-RESULT"),
+                              # SGRID is used *iff declared*: a topology variable in a dataset that does not declare the convention is not a declaration
+                              ("Conventions: 'CF-1.8' and a variable with cf_role=grid_topology", {"Conventions": "CF-1.8"}, "COMODO-RESULT"),
+                              ("no Conventions attribute and a variable with cf_role=grid_topology", {}, "COMODO-RESULT")):
         try:
-            ds = make_ds({}, attrs=attrs)
+            vars_ = {Sym("subgrid"): {"attrs": {"cf_role": "grid_topology", "topology_dimension": 1, "node_dimensions": "ni_u", "face_dimensions": "ni:ni_u (padding: both)"}, "len": 1}} if "cf_role" in name else {}
+            ds = make_ds(vars_, attrs=attrs)
             outs = ev.run_paths(fi, lambda: dict(ds=ds))
             ok = all(o.kind == "return" and isinstance(o.value, tuple) and o.value[0] is ds and o.value[1] == RES[want] for o in outs)
             if ok:
